@@ -243,7 +243,7 @@ def run(sc, ctx):
     for hist, v in viols:
         out['violations'].append(viol(v.clause, v.sig, 'history %r from "%s": %s' % ([PAIRS[o[1]][0] + (' (replace_all)' if o[2] else '') for o in hist], INITS[sc['init']], v.msg), dict(init=sc['init'], history=hist)))
     out['outcomes']['init=%d pair=%d' % (sc['init'] % len(KINDS6), sc['first'][1])] = 1
-    out['nontrivial'] = len(seen)
+    out['nontrivial_hashes'] = set(seen)       # distinct states, counted once across scenarios
     if sc['init'] == 0 and sc['first'] == ['repl', 0, 0]:
         out['samples'] = [dict(initial=INITS[0], first=PAIRS[0][0], states_below=len(seen))]
     return out
